@@ -60,7 +60,11 @@ func TestMain(m *testing.M) {
 	if *fMode == "" {
 		os.Exit(0)
 	}
-	runtime.GOMAXPROCS(1)
+	procs := 1
+	if v := os.Getenv("VERIF_PROCS"); v != "" {
+		fmt.Sscanf(v, "%d", &procs)
+	}
+	runtime.GOMAXPROCS(procs)
 	os.Exit(m.Run())
 }
 
